@@ -316,104 +316,11 @@ func runC07(r *Run) {
 			"ECMAScript Number::toString switches notation at exactly these thresholds; other thresholds change the spelling of numbers and hence every hash over them", "'f' iff 1e-6 ≤ x < 1e21", "format selection not as prescribed")
 	}
 
+	// --- number tokens
+	r.checkNumberRoute(P, fns)
+
 	// --- sortkey
-	var lexFn, parseObj *ssa.Function
-	for _, f := range fns {
-		if len(f.Params) == 2 && f.Params[0].Type().String() == "[]uint16" {
-			lexFn = f
-		}
-	}
-	r.R.Check(lexFn != nil, P+".sortkey.type", "type: the ordering function compares []uint16 sort keys (UTF-16 code units)", "jsoncanonicalizer.Transform ordering closure", r.where(tr),
-		"ordering by code points or bytes differs from UTF-16 order for astral vs. U+E000–U+FFFF names", "[]uint16", "no ordering closure over []uint16")
-	if lexFn != nil {
-		for _, f := range fns {
-			if len(callsOfClosure(f, lexFn)) > 0 {
-				parseObj = f
-			}
-		}
-		if parseObj != nil {
-			pf := r.E.Facts(parseObj, core.Ctx{})
-			okKey := false
-			for _, c := range callsOfClosure(parseObj, lexFn) {
-				t := pf.TB.Of(c.Common().Args[0])
-				okKey = core.MatchTerm("unicode/utf16.Encode(_)", t, core.Bind{})
-				// the argument of Encode is []rune(name) where name is the parsed member name
-				if okKey {
-					if ec, ok := c.Common().Args[0].(*ssa.Call); ok {
-						if cv, ok := ec.Common().Args[0].(*ssa.Convert); ok {
-							okKey = cv.Type().String() == "[]rune" && cv.X.Type().String() == "string"
-						} else {
-							okKey = false
-						}
-					}
-				}
-			}
-			r.R.Check(okKey, P+".sortkey.prov", "E5 provenance: the sort key is utf16.Encode([]rune(member name))", core.FuncName(parseObj), r.where(parseObj), "-", "utf16.Encode([]rune(name))", "sort key has another provenance")
-			// insertion: InsertBefore under true(precedes(sortKey, e)); PushBack otherwise
-			okIns, okPush := false, false
-			for _, b := range parseObj.Blocks {
-				for _, ins := range b.Instrs {
-					c, ok := ins.(*ssa.Call)
-					if !ok || c.Common().StaticCallee() == nil {
-						continue
-					}
-					switch c.Common().StaticCallee().String() {
-					case "(*container/list.List).InsertBefore":
-						for _, fc := range pf.At(c) {
-							if fc.Kind == "true" && fc.A.Op == "call" && fc.A.Name == "dyn" {
-								okIns = true
-							}
-							if fc.Kind == "true" && strings.Contains(fc.A.String(), "lexicographicallyPrecedes") {
-								okIns = true
-							}
-						}
-					case "(*container/list.List).PushBack":
-						okPush = core.HasFact(pf.At(c), "cmp(_ == nil)")
-					}
-				}
-			}
-			r.R.Check(okIns && okPush, P+".sortkey.insert", "E2 Before: a member is inserted before the first existing member it precedes, and appended only after the list is exhausted", core.FuncName(parseObj), r.where(parseObj),
-				"any other insertion rule leaves the members unsorted", "InsertBefore under precedes; PushBack at end", fmt.Sprintf("InsertBefore guarded=%v PushBack at end=%v", okIns, okPush))
-		}
-		// normal form of the ordering function
-		lf := r.E.Facts(lexFn, core.Ctx{})
-		var shapes []string
-		for _, ri := range lf.Returns() {
-			c, isC := core.RetOp(ri.Ret, 0).(*ssa.Const)
-			if !isC {
-				shapes = append(shapes, "non-constant")
-				continue
-			}
-			val := c.Value.String()
-			switch {
-			case core.HasFact(ri.Facts, "cmp((_ - _) < 0)") && val == "true":
-				shapes = append(shapes, "unit-smaller→true")
-			case core.HasFact(ri.Facts, "cmp((_ - _) > 0)") && val == "false":
-				shapes = append(shapes, "unit-larger→false")
-			case core.HasFact(ri.Facts, "cmp(len($0) < len(_))") && val == "true":
-				shapes = append(shapes, "shorter→true")
-			case val == "false":
-				shapes = append(shapes, "otherwise→false")
-			default:
-				shapes = append(shapes, "unexpected:"+val)
-			}
-		}
-		sort.Strings(shapes)
-		wantShapes := []string{"otherwise→false", "shorter→true", "unit-larger→false", "unit-smaller→true"}
-		r.R.Check(fmt.Sprint(shapes) == fmt.Sprint(wantShapes), P+".sortkey.nf", "E4 normal form: precedes = first differing code unit smaller; if one key is a prefix of the other the shorter precedes; otherwise false", core.FuncName(lexFn), r.where(lexFn),
-			"a different comparison orders members differently from RFC 8785 §3.2.3", fmt.Sprint(shapes), fmt.Sprintf("return shapes %v, expected %v", shapes, wantShapes))
-		// the compared operands are the two keys at the same index, widened to int
-		okOps := false
-		for _, b := range lexFn.Blocks {
-			for _, ins := range b.Instrs {
-				if bo, ok := ins.(*ssa.BinOp); ok && bo.Op == token.SUB {
-					x, y := lf.TB.Of(bo.X).String(), lf.TB.Of(bo.Y).String()
-					okOps = strings.HasPrefix(x, "$sortKey[") && strings.Contains(y, ".sortKey[") && types.Identical(bo.Type(), types.Typ[types.Int])
-				}
-			}
-		}
-		r.R.Check(okOps, P+".sortkey.operands", "E13: the difference compared is int(newKey[q]) - int(oldKey[q])", core.FuncName(lexFn), r.where(lexFn), "-", "same index, widened", "operands not as prescribed")
-	}
+	r.checkSortKey(P, tr, fns)
 
 	// --- det
 	r.checkMapOrder(P, []string{pkgJCS, pkgCanon})
@@ -569,3 +476,306 @@ func hasFloatBound(set core.FactSet, op string, want float64) bool {
 	}
 	return false
 }
+
+// checkSortKey: ordering of object members by UTF-16 code units (shared by
+// C07 and C08: the canonical form, hence every hash over it, must not depend
+// on the member order of the input).
+func (r *Run) checkSortKey(P string, tr *ssa.Function, fns []*ssa.Function) {
+	var lexFn, parseObj *ssa.Function
+	for _, f := range fns {
+		if len(f.Params) == 2 && f.Params[0].Type().String() == "[]uint16" {
+			lexFn = f
+		}
+	}
+	r.R.Check(lexFn != nil, P+".sortkey.type", "type: the ordering function compares []uint16 sort keys (UTF-16 code units)", "jsoncanonicalizer.Transform ordering closure", r.where(tr),
+		"ordering by code points or bytes differs from UTF-16 order for astral vs. U+E000–U+FFFF names", "[]uint16", "no ordering closure over []uint16")
+	if lexFn != nil {
+		for _, f := range fns {
+			if len(callsOfClosure(f, lexFn)) > 0 {
+				parseObj = f
+			}
+		}
+		if parseObj != nil {
+			pf := r.E.Facts(parseObj, core.Ctx{})
+			okKey := false
+			for _, c := range callsOfClosure(parseObj, lexFn) {
+				t := pf.TB.Of(c.Common().Args[0])
+				okKey = core.MatchTerm("unicode/utf16.Encode(_)", t, core.Bind{})
+				// the argument of Encode is []rune(name) where name is the parsed member name
+				if okKey {
+					if ec, ok := c.Common().Args[0].(*ssa.Call); ok {
+						if cv, ok := ec.Common().Args[0].(*ssa.Convert); ok {
+							okKey = cv.Type().String() == "[]rune" && cv.X.Type().String() == "string"
+						} else {
+							okKey = false
+						}
+					}
+				}
+			}
+			r.R.Check(okKey, P+".sortkey.prov", "E5 provenance: the sort key is utf16.Encode([]rune(member name))", core.FuncName(parseObj), r.where(parseObj), "-", "utf16.Encode([]rune(name))", "sort key has another provenance")
+			// insertion: InsertBefore under true(precedes(sortKey, e)); PushBack otherwise
+			okIns, okPush := false, false
+			for _, b := range parseObj.Blocks {
+				for _, ins := range b.Instrs {
+					c, ok := ins.(*ssa.Call)
+					if !ok || c.Common().StaticCallee() == nil {
+						continue
+					}
+					switch c.Common().StaticCallee().String() {
+					case "(*container/list.List).InsertBefore":
+						for _, fc := range pf.At(c) {
+							if fc.Kind == "true" && fc.A.Op == "call" && fc.A.Name == "dyn" {
+								okIns = true
+							}
+							if fc.Kind == "true" && strings.Contains(fc.A.String(), "lexicographicallyPrecedes") {
+								okIns = true
+							}
+						}
+					case "(*container/list.List).PushBack":
+						okPush = core.HasFact(pf.At(c), "cmp(_ == nil)")
+					}
+				}
+			}
+			r.R.Check(okIns && okPush, P+".sortkey.insert", "E2 Before: a member is inserted before the first existing member it precedes, and appended only after the list is exhausted", core.FuncName(parseObj), r.where(parseObj),
+				"any other insertion rule leaves the members unsorted", "InsertBefore under precedes; PushBack at end", fmt.Sprintf("InsertBefore guarded=%v PushBack at end=%v", okIns, okPush))
+		}
+		// the ordering function, decided semantically (whatever the spelling of the comparisons)
+		r.checkUnitOrder(P, lexFn)
+	}
+
+}
+
+// checkNumberRoute: the closure that parses literals and numbers returns either
+// one of the JSON literals (under equality with the token) or
+// NumberToJSON(ParseFloat(token, 64)) — no number token is emitted as written.
+func (r *Run) checkNumberRoute(P string, fns []*ssa.Function) {
+	var numFn *ssa.Function
+	for _, f := range fns {
+		if len(r.callsIn(f, "strconv.ParseFloat")) > 0 {
+			numFn = f
+		}
+	}
+	id := P + ".number.route"
+	rule := "E8 exit classes: every return of the literal/number parser is a JSON literal equal to the token or NumberToJSON(strconv.ParseFloat(token, 64))"
+	why := "a number token copied to the output as written (e.g. an integer above 2^53, a leading '+', 1e2) is not in ECMAScript Number::toString form, so equal JSON values get different canonical forms and hashes"
+	if numFn == nil {
+		r.R.Unk(id, rule, "jsoncanonicalizer.Transform", "-", why, "no closure calls strconv.ParseFloat")
+		return
+	}
+	ff := r.E.Facts(numFn, core.Ctx{})
+	good := true
+	var det []string
+	nNum, nLit := 0, 0
+	for _, ri := range ff.Returns() {
+		v := core.RetOp(ri.Ret, 0)
+		t := ff.TB.Of(v)
+		b := core.Bind{}
+		switch {
+		case core.MatchTerm("jsoncanonicalizer.NumberToJSON(strconv.ParseFloat(?tok, 64))", t, b):
+			nNum++
+		case t.Root() != nil && t.Root().Op == "global" && strings.HasSuffix(t.Root().Name, "literals") && hasEqWith(ri.Facts, t):
+			nLit++
+		default:
+			good = false
+			det = append(det, r.P.Pos(ri.Ret.Pos())+": returns "+t.String())
+		}
+	}
+	r.R.Check(good && nNum >= 1, id, rule, core.FuncName(numFn), r.where(numFn), why, fmt.Sprintf("%d number exits through ParseFloat→NumberToJSON, %d literal exits", nNum, nLit), strings.Join(det, "; "))
+}
+
+// hasEqWith: some must-fact equates term t with something.
+func hasEqWith(fs core.FactSet, t *core.Term) bool {
+	s := t.String()
+	for _, f := range fs {
+		if f.Kind == "cmp" && f.Op == "==" && (f.A.String() == s || f.B.String() == s) {
+			return true
+		}
+	}
+	return false
+}
+
+// checkUnitOrder: precedes(new, old) is evaluated over every ordering of the
+// two code units compared in one loop iteration and of the two lengths after
+// the loop: smaller unit → true, larger → false, equal → next unit; after the
+// common prefix: true iff new is shorter. Comparisons may be written directly
+// on the units or on a widened difference; the units must be the two keys at
+// the same index.
+func (r *Run) checkUnitOrder(P string, lexFn *ssa.Function) {
+	lf := r.E.Facts(lexFn, core.Ctx{})
+	id := P + ".sortkey.nf"
+	rule := "E4 table: over all orderings of (new[q], old[q]) and of (len(new), len(old)): first differing code unit smaller → precedes, larger → not; common prefix → the shorter key precedes; otherwise false"
+	why := "a different comparison orders members differently from RFC 8785 §3.2.3, so the canonical form depends on the member order of the input"
+	heads := allLoopHeads(lexFn)
+	if len(heads) != 1 || len(lexFn.Params) < 1 {
+		r.R.Unk(id, rule, core.FuncName(lexFn), r.where(lexFn), why, fmt.Sprintf("%d loops in the ordering function", len(heads)))
+		return
+	}
+	head := heads[0]
+	newKey := "$" + lexFn.Params[0].Name()
+	isNew := func(t *core.Term) bool { return t.Root() != nil && t.Root().String() == newKey }
+	var problems []string
+	// relation extracted from a fact: (new op old)
+	relOf := func(fc core.Fact, wantIdx bool) (string, bool) {
+		if fc.Kind != "cmp" {
+			return "", false
+		}
+		a, b, op := fc.A, fc.B, fc.Op
+		if a.Op == "bin" && a.Name == "-" && b.Op == "const" && b.Name == "0" {
+			// difference compared with zero: must be a signed, widened difference
+			if bv, ok := a.Val.(*ssa.BinOp); ok {
+				if bt, ok := bv.Type().Underlying().(*types.Basic); !ok || bt.Info()&types.IsUnsigned != 0 || bt.Kind() == types.Int16 || bt.Kind() == types.Int8 {
+					problems = append(problems, "difference of code units computed in "+bv.Type().String()+" (wraps around)")
+				}
+			}
+			a, b = a.Args[0], a.Args[1]
+		}
+		strip := func(t *core.Term) *core.Term {
+			for t.Op == "conv" && len(t.Args) == 1 {
+				t = t.Args[0]
+			}
+			return t
+		}
+		a, b = strip(a), strip(b)
+		if wantIdx {
+			if a.Op != "idx" || b.Op != "idx" {
+				return "", false
+			}
+			if a.Args[1].String() != b.Args[1].String() {
+				problems = append(problems, "units compared at different indexes: "+a.String()+" vs "+b.String())
+			}
+			a, b = a.Args[0], b.Args[0]
+		} else {
+			if a.Op != "len" || b.Op != "len" {
+				return "", false
+			}
+			a, b = a.Args[0], b.Args[0]
+		}
+		switch {
+		case isNew(a) && !isNew(b) && strings.HasSuffix(b.String(), ".sortKey"):
+			return op, true
+		case isNew(b) && !isNew(a) && strings.HasSuffix(a.String(), ".sortKey"):
+			return flipCmp[op], true
+		}
+		return "", false
+	}
+	holds := func(o int, op string) bool { // o = sign(new - old)
+		switch op {
+		case "<":
+			return o < 0
+		case "<=":
+			return o <= 0
+		case ">":
+			return o > 0
+		case ">=":
+			return o >= 0
+		case "==":
+			return o == 0
+		case "!=":
+			return o != 0
+		}
+		return false
+	}
+	retConst := func(ret *ssa.Return) (bool, bool) {
+		c, ok := core.RetOp(ret, 0).(*ssa.Const)
+		if !ok || c.Value == nil {
+			return false, false
+		}
+		return c.Value.String() == "true", true
+	}
+	sym := map[int]string{-1: "<", 0: "=", 1: ">"}
+	// --- per iteration
+	paths := loopIterationPaths(lf, head, 4000)
+	good := true
+	var det []string
+	for _, o := range []int{-1, 0, 1} {
+		n := 0
+		for _, ip := range paths {
+			consistent := true
+			for _, fc := range rawPathFacts(lf, ip.Blocks) {
+				if op, ok := relOf(fc, true); ok && !holds(o, op) {
+					consistent = false
+				}
+			}
+			if !consistent {
+				continue
+			}
+			n++
+			got := "next"
+			if ip.Ret != nil {
+				v, isC := retConst(ip.Ret)
+				switch {
+				case !isC:
+					got = "non-constant"
+				case v:
+					got = "true"
+				default:
+					got = "false"
+				}
+			}
+			want := map[int]string{-1: "true", 0: "next", 1: "false"}[o]
+			if got != want {
+				good = false
+				det = append(det, fmt.Sprintf("new unit %s old unit: %s, expected %s", sym[o], got, want))
+			}
+		}
+		if n == 0 {
+			good = false
+			det = append(det, "no iteration path for new unit "+sym[o]+" old unit")
+		}
+	}
+	// --- after the loop: paths from the loop exit to a return
+	var tails [][]*ssa.BasicBlock
+	var walk func(b *ssa.BasicBlock, cur []*ssa.BasicBlock, seen map[*ssa.BasicBlock]bool)
+	walk = func(b *ssa.BasicBlock, cur []*ssa.BasicBlock, seen map[*ssa.BasicBlock]bool) {
+		cur = append(cur, b)
+		if _, ok := b.Instrs[len(b.Instrs)-1].(*ssa.Return); ok {
+			tails = append(tails, append([]*ssa.BasicBlock{}, cur...))
+			return
+		}
+		for _, s := range b.Succs {
+			if !lf.IsLiveEdge(b, s) || seen[s] || len(tails) > 1000 {
+				continue
+			}
+			seen[s] = true
+			walk(s, cur, seen)
+			delete(seen, s)
+		}
+	}
+	for _, s := range head.Succs {
+		if lf.IsLiveEdge(head, s) && !blockReaches(lf, s, head, nil) {
+			walk(s, []*ssa.BasicBlock{head}, map[*ssa.BasicBlock]bool{head: true, s: true})
+		}
+	}
+	for _, o := range []int{-1, 0, 1} {
+		n := 0
+		for _, tp := range tails {
+			consistent := true
+			for _, fc := range rawPathFacts(lf, tp) {
+				if op, ok := relOf(fc, false); ok && !holds(o, op) {
+					consistent = false
+				}
+			}
+			if !consistent {
+				continue
+			}
+			n++
+			last := tp[len(tp)-1]
+			ret := last.Instrs[len(last.Instrs)-1].(*ssa.Return)
+			v, isC := retConst(ret)
+			if !isC || v != (o < 0) {
+				good = false
+				det = append(det, fmt.Sprintf("common prefix, len(new) %s len(old): returns %v (constant=%v), expected %v", sym[o], v, isC, o < 0))
+			}
+		}
+		if n == 0 {
+			good = false
+			det = append(det, "no exit path for len(new) "+sym[o]+" len(old)")
+		}
+	}
+	sort.Strings(problems)
+	det = append(det, dedupe(problems)...)
+	r.R.Check(good && len(problems) == 0, id, rule, core.FuncName(lexFn), r.where(lexFn), why,
+		fmt.Sprintf("%d iteration paths and %d exit paths agree with the statement", len(paths), len(tails)), strings.Join(det, "; "))
+}
+
+var flipCmp = map[string]string{"==": "==", "!=": "!=", "<": ">", ">": "<", "<=": ">=", ">=": "<="}
